@@ -30,15 +30,47 @@ SELF_IP, PEER = "10.0.0.1", "10.0.0.2"
 TTLS = [1, 2, 5, 120, 4500]
 
 
+def txt_bytes(d):
+    """the TXT rdata `ServiceInfo` builds from a properties dict"""
+    out = b""
+    for k, v in d.items():
+        k = k.encode() if isinstance(k, str) else k
+        v = v.encode() if isinstance(v, str) else v
+        e = k if v is None else k + b"=" + v
+        out += bytes([len(e)]) + e
+    return out or b"\x00"
+
+
+# what the application registers (review 3): [addresses], TXT, instance-name prefix, host names
+API_PROFILES = [
+    (["10.0.0.1"], None, "s", ["ha.local.", "HA.local.", "hb.local."]),
+    (["10.0.0.1", "fe80::1"], None, "s", ["ha.local.", "HA.local.", "hb.local."]),
+    (["10.0.0.1", "10.0.1.1", "fe80::1", "2001:db8::1", "fd00::1:2"], txt_bytes(B.BIN_TXT).hex(), "s", ["ha.local.", "hb.local."]),
+    (["fe80::1", "2001:db8::1"], txt_bytes(B.LONG_TXT).hex(), "caf\u00e9 \u65e5\u672c ", ["h\u00e4-\u65e5.local.", "hb.local."]),
+    (["2001:db8::1", "10.0.0.1"], txt_bytes(B.BIN_TXT).hex(), "\u2615 b\u00fcro ", [None, "h\u00f6st.local."]),
+    (["10.0.1.1", "10.0.0.1"], "00", "n" * 62, ["\u65e5" * 20 + "abc.local."]),
+]
+
+
+def reg_step(rng, prof, k, port):
+    addrs, text, prefix, servers = API_PROFILES[prof]
+    st_ = {"op": "register", "name": "%s%d.%s" % (prefix, k, TA), "type": TA, "server": rng.choice(servers), "port": port, "coop": True, "addrs": list(addrs)}
+    if text is not None:
+        st_["text"] = text
+    return st_
+
+
 def gen_scenario(seed, idx):
     rng = C.rng_for(seed, "c15api", idx)
     steps = []
     if rng.random() < 0.7:
         steps.append({"op": "user"})
+    prof = rng.randrange(len(API_PROFILES))
+    prefix = API_PROFILES[prof][2]
+    host0 = API_PROFILES[prof][3][0] or (prefix + "1." + TA)
     nsvc = rng.choice([0, 1, 1, 2])
     for i in range(nsvc):
-        steps.append({"op": "register", "name": "s%d.%s" % (i + 1, TA), "type": TA, "server": rng.choice(["ha.local.", "HA.local.", "hb.local."]),
-                      "port": 80 + i, "coop": True})
+        steps.append(reg_step(rng, prof, i + 1, 80 + i))
     insts = ["i1", "i2", "Inst3", "i4"]
     live_b = 0
     live_s = nsvc
@@ -58,8 +90,15 @@ def gen_scenario(seed, idx):
             steps.append({"op": "deliver", "kind": "txt", "inst": rng.choice(insts), "type": rng.choice(TYPES), "ttl": rng.choice(TTLS),
                           "txt": rng.choice(["036b3d76", "036b3d77", "00"])})
         elif k == "query":
-            steps.append({"op": "deliver", "kind": "query", "name": rng.choice([TA, "s1." + TA, "ha.local.", "_services._dns-sd._udp.local."]),
-                          "qtype": rng.choice([12, 33, 16, 1, 255]), "port": rng.choice([5353, 5353, 40000]), "qu": rng.random() < 0.3})
+            st_ = {"op": "deliver", "kind": "query", "name": rng.choice([TA, prefix + "1." + TA, host0, host0, "_services._dns-sd._udp.local."]),
+                   "qtype": rng.choice([12, 33, 16, 1, 1, 28, 28, 255]), "port": rng.choice([5353, 5353, 40000]), "qu": rng.random() < 0.3}
+            if rng.random() < 0.35:
+                # known answers: the host's address records (right and wrong), heard on an IPv6 socket (4-tuple source) or an IPv4 one
+                st_["ka"] = [[host0, 28 if ":" in a else 1, (socket.inet_pton(socket.AF_INET6, a) if ":" in a else socket.inet_aton(a)).hex(), rng.choice([120, 60, 1])]
+                             for a in rng.sample(API_PROFILES[prof][0] + ["10.0.0.77", "fe80::77"], rng.choice([1, 2]))]
+                if rng.random() < 0.6:
+                    st_["src"] = [rng.choice(["fe80::2", "fe80::9"]), st_["port"], 0, rng.choice([0, 3])]
+            steps.append(st_)
         elif k == "hostile":
             steps.append({"op": "deliver", "kind": "hostile", "n": rng.randrange(1 << 30)})
         elif k == "browser":
@@ -72,8 +111,7 @@ def gen_scenario(seed, idx):
             steps.append({"op": "lookup", "inst": rng.choice(insts), "type": rng.choice(TYPES), "timeout": rng.choice([200, 1500, 3000])})
         elif k == "register":
             live_s += 1
-            st_ = {"op": "register", "name": "s%d.%s" % (rng.choice([1, 2, 3, 4]), TA), "type": TA, "server": rng.choice(["ha.local.", "hc.local."]),
-                   "port": 90, "coop": True}
+            st_ = reg_step(rng, prof, rng.choice([1, 2, 3, 4]), 90)
             if rng.random() < 0.12:
                 # arguments at and over what the encoder can write (D28): 63/64-byte server labels (ASCII and 3-byte UTF-8), port 65535/65536
                 st_["server"], st_["port"] = rng.choice([("h" * 63 + ".local.", 90), ("h" * 64 + ".local.", 90), ("\u20ac" * 21 + ".local.", 90),
@@ -117,7 +155,9 @@ def packet_of(step, rng_hostile):
         owner = B.wname([step["inst"].encode()] + B.labels_of(step["type"]))
         return B.hdr(0, 0x8400, 0, 1) + B.rr(owner, 16, 0x8001, step["ttl"], bytes.fromhex(step["txt"]))
     if k == "query":
-        return B.hdr(step.get("id", 77), 0, 1) + B.q(B.labels_of(step["name"]), step["qtype"], 0x8001 if step.get("qu") else 1)
+        ka = step.get("ka", [])
+        return (B.hdr(step.get("id", 77), 0, 1, len(ka)) + B.q(B.labels_of(step["name"]), step["qtype"], 0x8001 if step.get("qu") else 1)
+                + b"".join(B.rr(B.wname(B.labels_of(o)), t, 0x8001, ttl, bytes.fromhex(rd)) for o, t, rd, ttl in ka))
     if k == "hostile":
         import random
         r = random.Random(step["n"])
@@ -226,8 +266,9 @@ def simulate(sc):
         return b
 
     def svc_fields(info):
+        ipv = __import__("zeroconf").IPVersion
         return {"name": info.name, "type": info.type, "server": info.server or info.name, "port": info.port or 0, "text": (info.text or b"").hex(),
-                "v4": (info.addresses_by_version(__import__("zeroconf").IPVersion.V4Only) or [b"\x00\x00\x00\x00"])[0].hex()}
+                "v4": [a.hex() for a in info.addresses_by_version(ipv.V4Only)], "v6": [a.hex() for a in info.addresses_by_version(ipv.V6Only)]}
 
     def w_add(orig):
         def f(self, info):
@@ -396,7 +437,8 @@ def simulate(sc):
                     st["users"].append(u)
                     zc.async_add_listener(u, None)
                 elif op == "register":
-                    info = ServiceInfo(step["type"], step["name"], step["port"], addresses=[socket.inet_aton(SELF_IP)], server=step.get("server"),
+                    addrs = [socket.inet_pton(socket.AF_INET6, x) if ":" in x else socket.inet_aton(x) for x in step.get("addrs", [SELF_IP])]
+                    info = ServiceInfo(step["type"], step["name"], step["port"], addresses=addrs, server=step.get("server"),
                                        properties=bytes.fromhex(step["text"]) if "text" in step else {"k": "v"})
                     st["strict"] = step.get("strict", True)
                     try:
@@ -497,7 +539,9 @@ def op_line(b):
     if o == "r":
         return "r %d 0 %s %d %s" % (b["t"], hs(b["addr"]), b["port"], C.hx(bytes.fromhex(b["data"])))
     if o in ("g", "u", "x"):
-        s = "%s %s %s %s %d %s %s" % (o, hs(b["name"]), hs(b["type"]), hs(b["server"]), b["port"], C.hx(bytes.fromhex(b["text"])), C.hx(bytes.fromhex(b["v4"])))
+        s = "%s %s %s %s %d %s" % (o, hs(b["name"]), hs(b["type"]), hs(b["server"]), b["port"], C.hx(bytes.fromhex(b["text"])))
+        for k in ("v4", "v6"):
+            s += " %d" % len(b[k]) + "".join(" " + C.hx(bytes.fromhex(a)) for a in b[k])
         return s + (" %d" % (1 if b["strict"] else 0) if o == "g" else "")
     if o == "b":
         return "b %d %d %s" % (b["t"], len(b["types"]), " ".join(hs(t) for t in b["types"]))
